@@ -406,7 +406,7 @@ Definition accepts_righthand (sp : spec) : bool :=
   | _ => true
   end.
 
-Definition localized (sp : spec) (w : loc) (rh : bool) (s : dna) : lres spec :=
+Definition localized_raw (sp : spec) (w : loc) (rh : bool) (s : dna) : lres spec :=
   match sp with
   | SAvoidPattern P l =>
       match overlap_region l w with
@@ -434,7 +434,9 @@ Definition localized (sp : spec) (w : loc) (rh : bool) (s : dna) : lres spec :=
       | None => LNone
       | Some (nl, sc, ec) =>
           let at_start := if lstrand l =? -1 then lend l <=? lend nl else lstart nl <=? lstart l in
-          LSome (STranslation T nl (pyslice tr sc ec) (if at_start then st else StartNone))
+          (* the localized copy is rebuilt through __init__, which turns a strand outside {-1, 1} into 1 *)
+          let nl' := mkLoc (lstart nl) (lend nl) (if lstrand nl =? -1 then -1 else 1) in
+          LSome (STranslation T nl' (pyslice tr sc ec) (if at_start then st else StartNone))
       end
   | SStopCodons T l =>
       match codon_window l w with None => LNone | Some (nl, _, _) => LSome (SStopCodons T nl) end
@@ -495,6 +497,10 @@ Definition localized (sp : spec) (w : loc) (rh : bool) (s : dna) : lres spec :=
       LSome (STerminalGC ws mini maxi keep)
   | SLength _ _ => LSome sp
   end.
+
+(* the solver passes with_righthand=False only to classes whose localized() accepts the keyword *)
+Definition localized (sp : spec) (w : loc) (rh : bool) (s : dna) : lres spec :=
+  localized_raw sp w (rh || negb (accepts_righthand sp)) s.
 
 (* ------------------------------------------------------------------ restrict_nucleotides *)
 Definition rchoice (a b : Z) (vs : list dna) : choice := mkChoice a b vs false.
